@@ -14,7 +14,14 @@ import (
 func init() {
 	Register(&PropDef{ID: "C01", Run: seqOrLin(seqC01, linPubSub), Config: seqOrLinConfig})
 	Register(&PropDef{ID: "C03", Run: seqOrLin(seqC03, linRPC), Config: seqOrLinConfig})
-	Register(&PropDef{ID: "C12", Run: func(c *Ctx) { runSeq(c, seqC12) }, Config: seqConfig})
+	Register(&PropDef{ID: "C12", Run: func(c *Ctx) {
+		if isLinRun(c.Spec.GenSeed) {
+			runC12b(c) // identity disclosure on a shared registration whose callees differ, some not reading
+			return
+		}
+		runSeq(c, seqC12)
+	}, Config: seqOrLinConfig})
+	Register(&PropDef{ID: "C12b", Run: runC12b, Drops: true})
 	Register(&PropDef{ID: "C05", Run: func(c *Ctx) {
 		if isLinRun(c.Spec.GenSeed) {
 			runC05b(c) // concurrent workload, late joiners, kills; baseline at the end
